@@ -80,8 +80,12 @@ class StmtMixin:
     def split(self, st, ctx, node):
         """fork exceptional paths recorded while evaluating the expressions of a statement"""
         out = []
+        earlier = []
         for cond, cls, lineno, snap in ctx.excs:
             e = (snap or st).copy()
+            for c0 in earlier:  # evaluation order: an exception raised earlier in the statement pre-empts this one
+                e.assume(z3.Not(c0))
+            earlier.append(cond)
             e.assume(cond)
             if self.quick_infeasible(e):
                 continue
